@@ -120,6 +120,74 @@ func (g *gen) compiledDefer() string {
 	}
 }
 
+// deferFuncVar: the deferred callee is a func-typed VARIABLE (local, captured, struct
+// field, slice element, package-level) that is reassigned after the defer statement: the
+// function value is fixed when the defer statement runs, like its arguments.
+func (g *gen) deferFuncVar() string {
+	g.Tag("defer:func-variable-reassigned-afterwards")
+	withArg := g.Bool("dfv-arg")
+	sig, call := "func()", "()"
+	if withArg {
+		g.Tag("defer:func-variable-with-args")
+		sig, call = "func(k int)", "(a)"
+	}
+	lit := func(recovers bool) string {
+		ev := g.Ev()
+		body := fmt.Sprintf("rec.E(%d)\n", ev)
+		if withArg {
+			body = fmt.Sprintf("rec.E(%d, k)\n", ev)
+		}
+		if recovers {
+			g.Tag("defer:func-variable-recovers")
+			body += fmt.Sprintf("rec.R(\"v%d\", recover())\n", g.Ev())
+		}
+		return sig + " {\n" + progen.Indent(body) + "}"
+	}
+	first, second := lit(g.Chance(1, 3, "dfv-rec1")), lit(g.Chance(1, 3, "dfv-rec2"))
+	v := g.Local("fv")
+	var s string
+	switch g.Pick(6, "dfv-holder") {
+	case 0, 1:
+		g.Tag("defer-func-variable:local")
+		s = fmt.Sprintf("%s := %s\ndefer %s%s\n%s = %s\n", v, first, v, call, v, second)
+	case 2:
+		g.Tag("defer-func-variable:captured")
+		s = fmt.Sprintf("%s := %s\nfunc() {\n\tdefer %s%s\n\t%s = %s\n}()\n", v, first, v, call, v, progen.Indent(second)[1:len(progen.Indent(second))-1])
+	case 3:
+		g.Tag("defer-func-variable:struct-field")
+		s = fmt.Sprintf("%s := struct{ F %s }{%s}\ndefer %s.F%s\n%s.F = %s\n", v, sig, first, v, call, v, second)
+	case 4:
+		g.Tag("defer-func-variable:slice-element")
+		s = fmt.Sprintf("%s := []%s{%s}\ndefer %s[0]%s\n%s[0] = %s\n", v, sig, first, v, call, v, second)
+	default:
+		g.Tag("defer-func-variable:assigned-in-loop")
+		i, k2 := g.Local("i"), g.Local("q")
+		arg := ""
+		par := ""
+		if withArg {
+			arg, par = "a", "k int"
+		}
+		s = fmt.Sprintf("var %s func(%s)\nfor %s := 0; %s < %d; %s++ {\n\t%s := %s\n\t%s = func(%s) {\n\t\trec.E(%d, %s, %s)\n\t}\n\tdefer %s(%s)\n}\n",
+			v, par, i, i, g.Int(2, 3, "dfv-loop-n"), i, k2, i, v, par, g.Ev(), mLoop, k2, v, arg)
+		if withArg {
+			s = strings.Replace(s, mLoop+", "+k2+")", mLoop+", "+k2+", k)", 1)
+		}
+		return s
+	}
+	if g.Chance(1, 3, "dfv-call-now") {
+		// the variable itself does hold the new function
+		switch {
+		case strings.Contains(s, ".F = "):
+			s += v + ".F" + call + "\n"
+		case strings.Contains(s, "[0] = "):
+			s += v + "[0]" + call + "\n"
+		default:
+			s += v + call + "\n"
+		}
+	}
+	return s
+}
+
 func (g *gen) tType() string {
 	if g.typeT == "" {
 		g.typeT = g.Top("T")
@@ -300,7 +368,7 @@ func (g *gen) body(f *fun, me int) string {
 	fmt.Fprintf(&b, "rec.E(%d, a)\n", g.Ev())
 	terminated := false
 	for i := 0; i < n && !terminated; i++ {
-		switch g.Pick(26, "stmt") {
+		switch g.Pick(29, "stmt") {
 		case 0:
 			fmt.Fprintf(&b, "rec.E(%d, a)\n", g.Ev())
 		case 1, 2, 3, 4:
@@ -378,6 +446,8 @@ func (g *gen) body(f *fun, me int) string {
 			fmt.Fprintf(&b, "rec.R(\"n%d\", recover())\n", g.Ev())
 		case 20, 21, 22:
 			b.WriteString(g.compiledDefer())
+		case 25, 26, 27:
+			b.WriteString(g.deferFuncVar())
 		case 23, 24:
 			g.Tag("recover:plain-helper-in-function-body")
 			b.WriteString(g.plainHelperRecover(mHelperBody))
